@@ -1,7 +1,7 @@
 """C08 harness: error messages are total and complete.
 
 Failing conversions are produced by the real converters from values whose SHAPE is symbolic: one or two faults, chosen by
-the solver among 20 fault sites (wrong kind at depth 1-4, missing / unexpected / duplicated keys, mixed-kind unexpected keys,
+the solver among 20 fault sites (wrong kind at depth 1-4, missing / unexpected / duplicated keys, mixed-kind unexpected keys (top level, and inside a nested product node next to missing fields),
 failing and raising predicates, raising validation hook, wrong tuple length, sums inside products inside sums, fused
 single-child chains, several missing fields one of which has aliases, union alternatives with one description), with concrete sentinel leaves (rendering would realise symbolic ones).  Each injected fault carries
 the tokens the text must contain, in nesting order.  Oracle: containment rules read off the property statement.
@@ -146,6 +146,14 @@ def inject(d, site, k, reqs):
         reqs.append(['top', 'al', 'an int'])
     elif site == 16:
         d['req'] = {'o': 1} if k % 2 == 0 else {}
+        if k >= 2:
+            # unexpected keys of two non-string kinds INSIDE a nested product node, next to missing fields (site 13 has them at
+            # the top level only): they must be named like any other key, fused ('req.5') or not
+            d['req'][5] = 1
+            d['req'][None] = 2
+            reqs.append(['Unexpected field'])
+            reqs.append(['req', "5'"])
+            reqs.append(['req', "None'"])
         reqs.append(['Missing required field'])
         reqs.append(['req', "v'"])
         reqs.append(['req', "w"])
